@@ -239,7 +239,7 @@ class Simulationarchive(Structure):
         if mode=='snapshot':
             if (sim.integrator=="mercurius" and sim.ri_mercurius.safe_mode == 1) or (sim.integrator=="whfast" and sim.ri_whfast.safe_mode == 1) or (sim.integrator=="saba" and sim.ri_saba.safe_mode == 1):
                 keep_unsynchronized = 0
-            if sim.integrator=="whfast":
+            if sim.integrator=="whfast" and sim.N_var==0: # With variational particles WHFast synchronizes after every step. The flag stored in the snapshot is kept.
                 sim.ri_whfast.keep_unsynchronized = keep_unsynchronized
             if sim.integrator=="saba":
                 sim.ri_saba.keep_unsynchronized = keep_unsynchronized
@@ -250,7 +250,7 @@ class Simulationarchive(Structure):
                 keep_unsynchronized = 0
             if (sim.integrator=="mercurius" and sim.ri_mercurius.safe_mode == 1) or (sim.integrator=="whfast" and sim.ri_whfast.safe_mode == 1) or (sim.integrator=="saba" and sim.ri_saba.safe_mode == 1):
                 keep_unsynchronized = 0
-            if sim.integrator=="whfast":
+            if sim.integrator=="whfast" and (sim.N_var==0 or mode=='exact'): # With variational particles WHFast synchronizes after every step. The flag stored in the snapshot is kept.
                 sim.ri_whfast.keep_unsynchronized = keep_unsynchronized
             if sim.integrator=="saba":
                 sim.ri_saba.keep_unsynchronized = keep_unsynchronized
